@@ -3,6 +3,7 @@ import ElaVerif.Lemmas.Wire
 import ElaVerif.Lemmas.Tx
 import ElaVerif.Lemmas.WireSchemas
 import ElaVerif.Lemmas.WireTokens
+import ElaVerif.Lemmas.WireTokensConst
 import ElaVerif.Gen.C04
 /-!
 # C04 — wire encoding round-trips; transaction identity ignores signatures
@@ -62,11 +63,32 @@ theorem C04_tx_wf_from_decode (bs : Bytes) (tx : Tx) (rest : Bytes)
     (h : decodeTx bs = some (tx, rest)) : wfTx tx = true :=
   (decodeTx_sound bs tx rest h).1
 
-/-- The bytes consumed by the transaction reader are exactly `Serialize` of the result
-    (all covered payload schemas are canonical, for every payload version). -/
+/-- The bytes consumed by the transaction reader are exactly `Serialize` of the result, for every
+    transaction type and payload version except the three whose payload reader is not canonical:
+    IllegalVoteEvidence (0x0f: a vote's accept byte is read as "== 1"), ProposalResult (0x15: a `bool`)
+    and CRCProposal (0x25: `for i < int(count)` loops, a `bool`). -/
 theorem C04_tx_canonical (bs : Bytes) (tx : Tx) (rest : Bytes)
-    (h : decodeTx bs = some (tx, rest)) : bs = encodeTx tx ++ rest :=
-  (decodeTx_sound bs tx rest h).2 fun _ hb => (body_nice hb).1
+    (h : decodeTx bs = some (tx, rest))
+    (h1 : tx.txType ≠ 0x0f) (h2 : tx.txType ≠ 0x15) (h3 : tx.txType ≠ 0x25) : bs = encodeTx tx ++ rest :=
+  (decodeTx_sound bs tx rest h).2 fun _ hb => body_canon hb h1 h2 h3
+
+/-- for those three the full statement is false: a ProposalResult transaction whose result flag byte
+    is 2 is accepted, but `Serialize` of the decoded transaction writes 1 -/
+def noncanonicalTxBytes : Bytes :=
+  [9, 0x15, 0, 1] ++ List.replicate 32 0 ++ [0, 0, 2] ++ [0, 0, 0] ++ [0, 0, 0, 0] ++ [0]
+
+theorem C04_tx_canonical_false_for_bool :
+    ¬ ∀ (bs : Bytes) (tx : Tx) (rest : Bytes), decodeTx bs = some (tx, rest) → bs = encodeTx tx ++ rest := by
+  intro h
+  have hd : ((decodeTx noncanonicalTxBytes).map fun p => encodeTx p.1 ++ p.2) ≠ some noncanonicalTxBytes := by
+    decide
+  cases hx : decodeTx noncanonicalTxBytes with
+  | none => revert hx; decide
+  | some p =>
+    have := h noncanonicalTxBytes p.1 p.2 (by rw [hx])
+    apply hd
+    rw [hx]
+    simp [← this]
 
 /-- A decoded transaction re-encodes to bytes that decode to the same transaction with the same
     hash, for every hash function. -/
@@ -210,5 +232,37 @@ theorem C04_gen_nil_guards : Gen.C04.nilGuards = ["p.UpgradeCodeInfo != nil"] :=
 theorem C04_gen_tokens_deep :
     WireTokens.expectedDeep.all (WireTokens.agree Gen.C04.mirrorStreams) = true := by
   decide +kernel
+
+/-! ## the token tie holds for every version, not only the checked ones -/
+
+/-- every version-guard constant of every regenerated stream is below 10 -/
+theorem C04_gen_guards_below :
+    (Gen.C04.streams.all fun s => WireTokens.guardsBelow 10 s.ser && WireTokens.guardsBelow 10 s.de) = true ∧
+    (Gen.C04.mirrorStreams.all fun s => WireTokens.guardsBelow 10 s.ser && WireTokens.guardsBelow 10 s.de) = true := by
+  decide +kernel
+
+/-- … hence (general lemma `WireTokens.tokens_const`, by induction on the stream) the reader and writer
+    token sequences of every stream at any version `v ≥ 10` are the ones at version 10, which
+    `C04_gen_tokens_*` compare with the schema. -/
+theorem C04_tokens_every_version (s : WireTokens.Stream) (hs : s ∈ Gen.C04.streams) (v : Nat) (hv : 10 ≤ v) :
+    WireTokens.deToks Gen.C04.streams s v = WireTokens.deToks Gen.C04.streams s 10 ∧
+    WireTokens.serToks Gen.C04.streams s v = WireTokens.serToks Gen.C04.streams s 10 := by
+  refine WireTokens.tokens_const hv _ (fun s' hs' => ?_) s hs
+  have := (List.all_eq_true.1 C04_gen_guards_below.1) s' hs'
+  simpa [Bool.and_eq_true] using this
+
+theorem C04_tokens_every_version_deep (s : WireTokens.Stream) (hs : s ∈ Gen.C04.mirrorStreams) (v : Nat)
+    (hv : 10 ≤ v) :
+    WireTokens.deToks Gen.C04.mirrorStreams s v = WireTokens.deToks Gen.C04.mirrorStreams s 10 ∧
+    WireTokens.serToks Gen.C04.mirrorStreams s v = WireTokens.serToks Gen.C04.mirrorStreams s 10 := by
+  refine WireTokens.tokens_const hv _ (fun s' hs' => ?_) s hs
+  have := (List.all_eq_true.1 C04_gen_guards_below.2) s' hs'
+  simpa [Bool.and_eq_true] using this
+
+/-- and on the schema side every payload of the table has the same layout at every version `≥ 4`
+    (so at `v ≥ 10` it is the layout at 10) -/
+theorem C04_payload_every_version (ty : Nat) (f : Nat → Ty) (h : payloadOf ty = .covered f) (v : Nat)
+    (hv : 10 ≤ v) : f v = f 10 := by
+  rw [covered_stable h v (by omega), covered_stable h 10 (by omega)]
 
 end ElaVerif.C04
